@@ -84,3 +84,29 @@ def idb_dump(b, files, cwd=None):
 
 
 PUBLISH_DEFS = ["-D__published=public", "-D__begin_publish=", "-D__end_publish="]
+
+
+def run_stable(cmd, b, cwd=None, timeout=30, tries=40, **kw):
+    """run() for long explorations that share the build directories with other checks: a
+    concurrent `cmake --build` (another check noticed a changed tree) may be re-linking the
+    binary or libinterrogatedb.so at this very moment.  Exec/loader failures (ENOENT,
+    ETXTBSY, exit 126/127, "error while loading shared libraries") are environment
+    artefacts, never observations: wait for the build lock and run again."""
+    import time
+    last = None
+    for _ in range(tries):
+        try:
+            r = run(cmd, cwd=cwd, timeout=timeout, b=b, **kw)
+        except OSError as e:
+            last = R(127, "", "exec failed: %r" % (e,), False, cmd)
+            r = None
+        if r is not None:
+            err = r.err if isinstance(r.err, str) else r.err.decode("latin-1")
+            if r.rc not in (126, 127) and "error while loading shared libraries" not in err \
+                    and "symbol lookup error" not in err:
+                return r
+            last = r
+        time.sleep(1.0)
+        with build.lock(os.path.basename(b["dir"])):
+            pass
+    return last
